@@ -781,7 +781,10 @@ fn symbol_case(s: &mut Session, rng: &mut Rng) {
 // cmap14
 
 fn cmap14_case(s: &mut Session, rng: &mut Rng) {
-    let nsel = rng.below(4) as usize;
+    // malformed = arrays not sorted as the format requires: correspondence only (the model
+    // transcribes core's binary_search_by, so it predicts the answers on unsorted arrays too)
+    let malformed = rng.chance(1, 4);
+    let nsel = rng.below(4) as usize + if malformed { 1 } else { 0 };
     let mut sel_val: u32 = *rng.pick(&[0xFE00u32, 0xFE0E, 0xE0100, 0x180B]);
     let mut recs = vec![];
     let mut toks: Vec<String> = vec![];
@@ -806,6 +809,11 @@ fn cmap14_case(s: &mut Session, rng: &mut Rng) {
                 for x in c..=c + add as u32 { want.insert((x, sel_val), None); used.push(x); }
                 c += add as u32 + 1;
             }
+            if malformed && k > 1 && rng.chance(1, 2) {
+                let (i, j) = (rng.below(k as u64) as usize, rng.below(k as u64) as usize);
+                v.swap(i, j);
+                parts.swap(i, j);
+            }
             dt = parts.join(",");
             total_len += 4 + 4 * k as u32;
             Some(wcmap::DefaultUvs::new(k as u32, v))
@@ -822,6 +830,11 @@ fn cmap14_case(s: &mut Session, rng: &mut Rng) {
                 parts.push(format!("{c}>{g}"));
                 if !used.contains(&c) { want.insert((c, sel_val), Some(g)); }
             }
+            if malformed && k > 1 && rng.chance(1, 2) {
+                let (i, j) = (rng.below(k as u64) as usize, rng.below(k as u64) as usize);
+                v.swap(i, j);
+                parts.swap(i, j);
+            }
             nt = parts.join(",");
             total_len += 4 + 5 * k as u32;
             Some(wcmap::NonDefaultUvs::new(k as u32, v))
@@ -830,6 +843,12 @@ fn cmap14_case(s: &mut Session, rng: &mut Rng) {
         toks.push(format!("{sel_val};{dt};{nt}"));
         sel_val += 1 + rng.below(3) as u32;
     }
+    if malformed && nsel > 1 && rng.chance(1, 2) {
+        let (i, j) = (rng.below(nsel as u64) as usize, rng.below(nsel as u64) as usize);
+        recs.swap(i, j);
+        toks.swap(i, j);
+    }
+    s.count(if malformed { "c14:malformed" } else { "c14:well-formed" });
     let sub = wcmap::CmapSubtable::format_14(total_len, nsel as u32, recs);
     let Some(bytes) = compile_one((0, 5), sub) else { s.count("c14:compile-failed"); return; };
     let font_bytes = font_with(&bytes, 1000);
@@ -858,6 +877,7 @@ fn cmap14_case(s: &mut Session, rng: &mut Rng) {
     };
     let got: Vec<String> = qs.iter().map(|(c, sel)| show(cm.map_variant(*c, *sel))).collect();
     for ((c, sel), g) in qs.iter().zip(&got) {
+        if malformed { break; }
         let w = match want.get(&(*c, *sel)) { None => "none".to_string(), Some(None) => "default".into(), Some(Some(g)) => format!("v{g}") };
         s.oracle("cmap14_map_variant", *g == w, || format!("({c},{sel}) in {}", toks.join(" ")), || format!("got {g} want {w}"));
     }
@@ -987,6 +1007,8 @@ fn run(cfg: &Config, s: &mut Session) {
     }
     for _ in 0..(n_sel / 10) {
         symbol_case(s, &mut rng);
+    }
+    for _ in 0..(n_sel / 2) {
         cmap14_case(s, &mut rng);
     }
 }
